@@ -186,3 +186,47 @@ for _file, _tag in ((B, "passlib"), ("libpass/_utils/deprecated.py", "libpass"))
             ensures=[("the standard decoder receives the input with every '.' mapped to '+', for text and bytes input alike", _ab64_post)],
             descr=f"every ASCII {_kind} input",
         ))
+
+
+def _b32_table():
+    """_b32_translate, computed by the REAL compile_byte_translation from the mapping literal in the source"""
+    import ast as _ast
+
+    from pyvc.concrete import load_function
+
+    tree, _ = extract.module_ast(B)
+    mapping = None
+    for st in tree.body:
+        if isinstance(st, _ast.Assign) and any(isinstance(t, _ast.Name) and t.id == "_b32_translate" for t in st.targets) and isinstance(st.value, _ast.Call):
+            mapping = _ast.literal_eval(st.value.args[0])
+    if mapping is None:
+        raise extract.ExtractError("_b32_translate = compile_byte_translation({...}) not found")
+    fn, _info = load_function(f"{B}::compile_byte_translation", {"_TRANSLATE_SOURCE": [bytes([i]) for i in range(256)], "unicode_or_bytes": (str, bytes), "B_EMPTY": b"", "Mapping": dict, "AnyStr": str})
+    return fn(mapping)
+
+
+def _b32_post(it, env):
+    got = it.to_z3(it.run.ghost["_b32decode"])
+    data = SStr(it.to_z3(env.lookup("source")), "bytes")
+    table = _b32_table()
+    old = it.spec
+    it.spec = True
+    try:
+        tr = it.to_z3(it.m_text_translate(data, table))
+    finally:
+        it.spec = old
+    n = z3.Length(tr)
+    pad = (8 - n % 8) % 8
+    return z3.And(z3.PrefixOf(tr, got), z3.Length(got) == n + pad, z3.Length(got) % 8 == 0,
+                  z3.InRe(z3.SubString(got, n, pad), z3.Star(z3.Re("="))))
+
+
+for _kind, _t in (("text", Str()), ("bytes", Bytes())):
+    CONTRACTS.append(Contract(
+        f"b32decode[{_kind}]", f"{B}::b32decode",
+        params={"source": _t},
+        globals={"_b32decode": _capture("_b32decode"), "_b32_translate": _b32_table()},
+        requires=[lambda it, env: it.all_codes_below(it.to_z3(env.lookup("source")), 128)],
+        ensures=[("the standard decoder receives the input with the mistyped characters corrected ('8' -> 'B', '0' -> 'O'), padded with '=' to a multiple of 8 -- for text and bytes input alike", _b32_post)],
+        descr=f"every ASCII {_kind} input",
+    ))
